@@ -327,6 +327,20 @@ def handle (stream : String) (args : List String) : String :=
     let r : IcePrio.Role := if role = "controlling" then .controlling else .controlled
     let order := IcePairs.checkOrder r (prefer = "1") locals remotes
     if order.isEmpty then "-" else ";".intercalate (order.map (fun p => s!"{p.1.id}>{p.2.id}"))
+  | "select", role :: pn :: items =>
+    -- items: `S|N,lid,lprio,ltcp,rid,rprio` — successful checks (S) / successful nominations (N) in arrival order
+    let parseP (t : String) : Option (Bool × IcePairs.PPair) :=
+      match fields t with
+      | [k, lid, lp, ltcp, rid, rp] => do
+        some (k = "S", (⟨← lid.toNat?, ← lp.toNat?, ltcp = "1", 1, false, true, false, true, false⟩,
+                         ⟨← rid.toNat?, ← rp.toNat?, ltcp = "1", 1, false, true, false, true, false⟩))
+      | _ => none
+    let ps := items.filterMap parseP
+    if ps.length ≠ items.length then "bad-args" else
+    let r : IcePrio.Role := if role = "controlling" then .controlling else .controlled
+    match IcePairs.conclude r ((ps.filter (·.1)).map (·.2)) ((ps.filter (fun c => !c.1)).map (·.2)) (pn = "1") with
+    | none => "-"
+    | some o => s!"{o.selected.1.id}>{o.selected.2.id} nc={match o.nominationComplete with | none => "-" | some true => "true" | some false => "false"} state={if o.connected then "connected" else "failed"}"
   | "agentmsg", [kind, tx, lu, ru, rpw, role, prio, tie, nom] =>
     match unhex tx, unhex lu, unhex ru, unhex rpw, prio.toNat?, tie.toNat? with
     | some tx, some lu, some ru, some rpw, some prio, some tie =>
